@@ -76,7 +76,7 @@ def fromstr_table(F, chk):
     paths = mir.walk_inline(b, F)          # nested / private helpers are walked in context
     whole, prefix = {}, {}
     fallthrough = []
-    s_arg = ("arg", 1, b["locals"][1]["name"])
+    s_arg = ("arg", 1, mir.argname(1, b["locals"][1]["name"]))
     for p in paths:
         if p.end[0] != "return":
             continue
